@@ -703,6 +703,7 @@ def run(ctx):
     import time
     phase = {}
     t0 = time.time()
+    vlib.bad_done_stage(ctx, "c14_buf.cpp", "c14_buf", "JSON text delivered in pieces differs from memory_input", "buf")
     # (a) the tie: regenerate the table from the tree's json.hpp
     table_ok = True
     try:
@@ -877,6 +878,8 @@ def run(ctx):
 def replay(j):
     """bin/check --replay <file>: re-run the stored input on the current tree and re-judge it with the extracted oracle"""
     r = j["replay"]
+    if r.get("mode") == "buf":
+        return vlib.replay_bad_done("C14", "c14_buf.cpp", "c14_buf", "JSON text delivered in pieces differs from memory_input", "buf")
     h = r["input_hex"] or "-"
     with tempfile.TemporaryDirectory(prefix="c14r-") as wd:
         p = os.path.join(wd, "replay.cases")
